@@ -220,7 +220,7 @@ def build_diploid(rng, d, params):
     ph = _phase_sets(rng, sc)
     f["phased"] = synth.write_vcf(sc, os.path.join(d, "phased.vcf"), phased=ph)
     f["phased_gz"] = _tabix(f["phased"])
-    sc2, sc3 = _flip_some(rng, sc, 0.12), _flip_some(rng, sc, 0.2)
+    sc2, sc3 = _flip_some(rng, sc, 0.0), _flip_some(rng, sc, 0.2)
     f["phased2"] = synth.write_vcf(sc2, os.path.join(d, "phased2.vcf"), phased=_phase_sets(rng, sc2, 0.05, 3))
     f["phased3"] = synth.write_vcf(sc3, os.path.join(d, "phased3.vcf"), phased=_phase_sets(rng, sc3, 0.3, 1))
     # single-sample files of the same individual under different sample names (compare --ignore-sample-name)
@@ -479,7 +479,36 @@ def build_undeclared_info(rng, d, params):
                 {"vcf": ("out.vcf", "text")}, feat=feat)]
 
 
-BUILDERS = {"diploid": build_diploid, "polyploid": build_polyploid, "linked-stress": build_linked_stress,
+def build_ped_changes(rng, d, params):
+    """A trio whose VCF genotypes are wrong (het written, truth homozygous) at the same variants in all three
+    individuals, with enough coverage that --distrust-genotypes changes all of them."""
+    os.makedirs(d, exist_ok=True)
+    used = set()
+    names = [_rand_name(rng, used) for _ in range(3)]
+    sc = synth.make_scenario(rng, nchrom=1, nsamples=3, nvars=6, kinds=("snv",), het_fraction=1.0, sample_names=names)
+    c = sc.chroms[0]
+    ch, fa, mo = names
+    for s in names:
+        sc.haps[s][c][2] = (0, 0)
+        sc.haps[s][c][4] = (1, 1)
+    sc.haps[ch][c], _ = synth.inherit(rng, sc.haps[fa][c], sc.haps[mo][c])
+    ref = synth.write_fasta(sc, os.path.join(d, "ref.fa"))
+    vcf = synth.write_vcf(sc, os.path.join(d, "in.vcf"), gt_override={(s, c, i): "0/1" for s in names for i in (2, 4)})
+    ped = synth.write_ped(os.path.join(d, "family.ped"), [(ch, fa, mo)])
+    reads = []
+    for s in names:
+        reads += synth.simulate_reads(rng, sc, s, c, 14, len_range=(200, 400))
+    bam = synth.write_bam(sc, reads, os.path.join(d, "reads.bam"))
+    common = ["--reference", ref, "-o", "{out}/out.vcf", "--ped", ped, "--distrust-genotypes", "--changed-genotype-list",
+              "{out}/changed.tsv", "--recombination-list", "{out}/recomb.tsv"]
+    outs = {"vcf": ("out.vcf", "text"), "changed-genotype-list": ("changed.tsv", "text"),
+            "recombination-list": ("recomb.tsv", "text")}
+    return [Job("phase-ped-changes", "phase", common + [vcf, bam], dict(outs), feat=dict(nsamples=3, ped=True)),
+            Job("phase-ped-samples-changes", "phase", common + ["--use-ped-samples", vcf, bam], dict(outs),
+                feat=dict(nsamples=3, ped=True, use_ped_samples=True))]
+
+
+BUILDERS = {"ped-changes": build_ped_changes, "diploid": build_diploid, "polyploid": build_polyploid, "linked-stress": build_linked_stress,
             "shared-barcode": build_shared_barcode, "undeclared-info": build_undeclared_info}
 
 
